@@ -738,3 +738,159 @@ func TestVfC05Rollover(t *testing.T) {
 		})
 	})
 }
+
+// vfReplyWithTail is vfReply plus one opaque additional record whose RDATA is `tail`; the RDATA are the last octets
+// of the message.
+func vfReplyWithTail(wireID uint16, qtoken uint32, replyToken uint32, tail []byte) []byte {
+	name := vfkit.Name{[]byte(fmt.Sprintf("t%d", qtoken)), []byte("vf")}
+	rd := []byte{byte(replyToken >> 24), byte(replyToken >> 16), byte(replyToken >> 8), byte(replyToken)}
+	m := &vfkit.Msg{ID: wireID, Bits: vfkit.BitQR | vfkit.BitRD | vfkit.BitRA,
+		Q:  []vfkit.Question{{Name: name, Type: 1, Class: 1}},
+		An: []vfkit.RR{{Owner: name, Type: 1, Class: 1, TTL: 60, RData: []vfkit.RDPart{{Raw: rd}}}},
+		Ar: []vfkit.RR{{Owner: name, Type: 65280, Class: 1, TTL: 60, RData: []vfkit.RDPart{{Raw: tail}}}}}
+	w, _ := vfkit.Encode(m, vfkit.EncOpts{})
+	return w
+}
+
+// TestVfC05SlowFrame: the time a reply takes to arrive is part of "every server behaviour". On a pipelined stream
+// connection with a short idle time-out one reply frame arrives in two pieces, the second one later than the idle
+// time-out allows, while 1-4 exchanges wait. The second piece is drawn: the plain remainder of the frame, or a
+// remainder that - read on its own - is a well-formed frame carrying the wire ID of a waiting exchange (a reply the
+// server never sent as such). Whatever the transport does about the pause (give the connection up, or keep reading),
+// an exchange that returns a message returns a reply that was sent to it.
+func TestVfC05SlowFrame(t *testing.T) {
+	st := vfkit.Stats("TestVfC05SlowFrame", "pipelined stream connection with idle_timeout 20-50 ms, 1-4 exchanges waiting; one reply frame is delivered in two pieces with a pause of 2 x idle_timeout + 20 ms in between (cut inside the prefix, inside the header, anywhere, or exactly in front of an opaque record's RDATA that is itself a well-formed frame with the wire ID of a waiting exchange and a reply token never registered as sent); afterwards every exchange still waiting is answered properly on its newest connection; invariants of the state machine (own reply, caller ID, no reply twice, never a message the server did not send); non-trivial = the pause is longer than the idle time-out (every case)")
+	defer vfkit.Flush()
+	rapid.Check(t, func(t *rapid.T) {
+		srv := &vfServerSide{}
+		idle := time.Duration(rapid.IntRange(20, 50).Draw(t, "idleMs")) * time.Millisecond
+		tr := transport.NewPipelineTransport(transport.PipelineOpts{DialContext: srv.dial, IsTCP: true, IdleTimeout: idle, MaxConcurrentQuery: 64})
+		h := &vfC05{t: t, srv: srv, tr: tr, readers: map[int]*vfMsgReader{}, ids: map[int]map[uint16]uint32{}, owner: map[uint32][]vfWire{},
+			delivered: map[uint32]vfWire{}, replied: map[vfWire]bool{}, returned: map[uint32]uint32{}}
+		defer func() {
+			for _, e := range h.exchs {
+				e.cancel()
+			}
+			for _, e := range h.exchs {
+				select {
+				case <-e.done:
+				case <-time.After(vfStall):
+					vfkit.Inconclusive("C05 slow frame: exchange did not return after cancellation")
+				}
+			}
+			tr.Close()
+		}()
+		n := rapid.IntRange(1, 4).Draw(t, "waiting")
+		for i := 0; i < n; i++ {
+			h.nextTok++
+			e := &vfExch{token: h.nextTok, callerID: rapid.Uint16().Draw(t, "callerID"), done: make(chan struct{})}
+			e.query = vfQuery(e.callerID, e.token)
+			e.orig = append([]byte(nil), e.query...)
+			ctx, cancel := context.WithCancel(context.Background())
+			e.cancel = cancel
+			h.exchs = append(h.exchs, e)
+			go func() {
+				defer close(e.done)
+				m, err := tr.ExchangeContext(ctx, e.query)
+				e.err = err
+				if m != nil {
+					e.gotMsg = true
+					e.respID = m.Header.ID
+					e.respTok, e.tokOK = vfReplyToken(m)
+					dnsmsg.ReleaseMsg(m)
+				}
+			}()
+		}
+		// all queries on the wire (the idle timer may already have cost a connection: then they are on a newer one)
+		onWire := func(e *vfExch) (vfWire, bool) {
+			ws := h.owner[e.token]
+			for i := len(ws) - 1; i >= 0; i-- {
+				if h.connOpen(ws[i].conn) {
+					return ws[i], true
+				}
+			}
+			return vfWire{}, false
+		}
+		waitAll := func() bool {
+			for deadline := time.Now().Add(2 * time.Second); time.Now().Before(deadline); time.Sleep(200 * time.Microsecond) {
+				h.scan()
+				ok := true
+				for _, e := range h.exchs {
+					if _, on := onWire(e); !on && !e.finished() {
+						ok = false
+					}
+				}
+				if ok {
+					return true
+				}
+			}
+			return false
+		}
+		if !waitAll() {
+			return // the connection keeps dying under the short idle time-out before the queries settle: nothing to judge
+		}
+		a := h.exchs[rapid.IntRange(0, n-1).Draw(t, "slowOne")]
+		b := h.exchs[rapid.IntRange(0, n-1).Draw(t, "forgedFor")]
+		wa, okA := onWire(a)
+		wb, okB := onWire(b)
+		if a.finished() || b.finished() || !okA || !okB {
+			return
+		}
+		mode := rapid.SampledFrom([]string{"forged-tail", "forged-tail", "cut-in-prefix", "cut-in-header", "cut-anywhere"}).Draw(t, "mode")
+		h.nextRTok++
+		rtA := h.nextRTok
+		var frame []byte
+		cut := 0
+		switch mode {
+		case "forged-tail":
+			h.nextRTok++
+			forged := vfFrame(vfReply(wb.wireID, b.token, h.nextRTok)) // never registered as delivered
+			frame = vfFrame(vfReplyWithTail(wa.wireID, a.token, rtA, forged))
+			cut = len(frame) - len(forged)
+		case "cut-in-prefix":
+			frame = vfFrame(vfReply(wa.wireID, a.token, rtA))
+			cut = 1
+		case "cut-in-header":
+			frame = vfFrame(vfReply(wa.wireID, a.token, rtA))
+			cut = rapid.IntRange(2, 13).Draw(t, "cutAt")
+		default:
+			frame = vfFrame(vfReply(wa.wireID, a.token, rtA))
+			cut = rapid.IntRange(1, len(frame)-1).Draw(t, "cutAt")
+		}
+		h.delivered[rtA] = wa // the complete frame is a reply the server sent to a (if the transport waits for it)
+		c := srv.snapshot()[wa.conn]
+		c.Deliver(frame[:cut])
+		time.Sleep(2*idle + 20*time.Millisecond)
+		c.Deliver(frame[cut:])
+		c.WaitQuiet(50 * time.Millisecond)
+		// answer whoever still waits, on the newest connection its query is on
+		for round := 0; round < 6; round++ {
+			time.Sleep(2 * time.Millisecond)
+			h.scan()
+			pending := 0
+			for _, e := range h.exchs {
+				if e.finished() {
+					continue
+				}
+				pending++
+				if w, on := onWire(e); on && !h.replied[w] && !(e == a && w == wa) {
+					h.replied[w] = true
+					h.deliver(w.conn, w.wireID, e.token)
+				}
+			}
+			if pending == 0 {
+				break
+			}
+			time.Sleep(idle / 2)
+		}
+		h.scan()
+		h.check()
+		classes := []string{"mode=" + mode, fmt.Sprintf("waiting=%d", n)}
+		if a == b {
+			classes = append(classes, "forged-for-the-slow-exchange-itself")
+		}
+		st.Case(vfkit.Fingerprint(mode, n, cut, idle, len(srv.snapshot())), true, classes, func() any {
+			return map[string]any{"mode": mode, "waiting": n, "cut_at": cut, "frame_len": len(frame), "idle_ms": idle.Milliseconds(), "connections_dialled": len(srv.snapshot())}
+		})
+	})
+}
